@@ -220,8 +220,15 @@ def run_kani(snapshot: str, harnesses: list[Harness], jobs: int, log_dir: str, e
     env = dict(os.environ, CARGO_NET_OFFLINE="true", CARGO_TERM_COLOR="never")
     t0 = time.time()
     total_to = per * ((len(harnesses) + jobs - 1) // max(1, jobs)) + extra_timeout + 300
+    def _big_stack():
+        # CBMC's expression simplifier recurses deeply on large formulas; with the default 8 MiB stack it crashes ("CBMC failed")
+        import resource
+        try:
+            resource.setrlimit(resource.RLIMIT_STACK, (resource.RLIM_INFINITY, resource.RLIM_INFINITY))
+        except Exception:
+            pass
     try:
-        p = subprocess.run(cmd, cwd=snapshot, capture_output=True, text=True, env=env, timeout=total_to)
+        p = subprocess.run(cmd, cwd=snapshot, capture_output=True, text=True, env=env, timeout=total_to, preexec_fn=_big_stack)
         out = p.stdout + "\n" + p.stderr
     except subprocess.TimeoutExpired as e:
         out = (e.stdout or b"").decode(errors="replace") + "\n" + (e.stderr or b"").decode(errors="replace") + "\nVERIF: global timeout"
